@@ -187,7 +187,17 @@ fn gen_literal_text(t: &mut Tape) -> String {
     let dec = ['0', '1', '2', '9', '_', '5'];
     let hex = ['0', 'f', 'F', '9', '_', 'a', 'g'];
     let bin = ['0', '1', '_', '2'];
-    let lit = match t.below(12) {
+    let deep = t.below(100) == 0;
+    let lit = match if deep { 12 } else { t.below(12) } {
+        12 => {
+            // deep nesting with a syntax error inside: a failing parse must not re-read the nested
+            // text once per grammar alternative (time exponential in the depth)
+            let d = 8 + t.below(70);
+            let (open, close) = *t.pick(&[("(", ")"), ("[", "]"), ("f(", ")"), ("(1, ", ")"), ("[(", ")]")]);
+            let inner = *t.pick(&["1 1", "x y", "", "1 +", "a b()", ")", "1"]);
+            let closed = t.below(d + 1);
+            return format!("fn main() -> int {{ {}{}{} }}", open.repeat(d), inner, close.repeat(closed));
+        }
         10 | 11 => {
             // a long statement full of multi-byte characters that fails AFTER parsing: the error
             // message quotes the source (every byte alignment of the quoted span is reached)
